@@ -226,9 +226,12 @@ fn label_problems(text: &str) -> Vec<(String, String)> {
 }
 
 pub fn run(ctx: &mut Ctx) {
-    let thorough = ctx.tier.thorough();
-    let cases = crate::gram::generate(if thorough { 2 } else { 1 });
-    ctx.rule = "(a) every C01 program in canonical spelling, every base document x every trivia menu member at every gap at once and at each single gap (quick: rotating third), OSCAT description headers with 1-4 byte characters, texts with an invalid character; (b) every C01 program that parses: identifier occurrences vs Id spans; (c) every single-token deletion / duplication / neighbour swap of every base document and every C01 program (quick: every 7th) : labels of all diagnostics; distinct = distinct source text".into();
+    // quick = the former thorough tier (deviation bound 2, complete menu, every program mutated);
+    // thorough = deviation bound 3 for (a) and (b), every 20th program mutated in (c)
+    let deep = ctx.tier.thorough();
+    let thorough = true;
+    let cases = crate::gram::generate(if deep { 3 } else { 2 });
+    ctx.rule = "(a) every C01 program in canonical spelling, every base document x every trivia menu member at every gap at once and at each single gap (all members), OSCAT description headers with 1-4 byte characters, texts with an invalid character; (b) every C01 program that parses: identifier occurrences vs Id spans; (c) every single-token deletion / duplication / neighbour swap of every base document and every C01 program (thorough: of every 20th of the larger program set) : labels of all diagnostics; distinct = distinct source text".into();
     ctx.assumptions.push("line = number of LF before the span start; column accepted in bytes, chars or UTF-16 units as long as one unit fits every token of the document".into());
     ctx.assumptions.push("inside a blanked OSCAT header token text may be blanks instead of the original characters, but must have the same byte length".into());
 
@@ -350,7 +353,7 @@ pub fn run(ctx: &mut Ctx) {
 
     // ---- (c) single-token mutants: labels of whatever is diagnosed
     let mut hosts: Vec<(String, Vec<Lexeme>)> = corpus::docs().into_iter().map(|d| (format!("doc:{}", d.name), d.lx.v)).collect();
-    let stride = if thorough { 1 } else { 7 };
+    let stride = if deep { 20 } else { 1 };
     for (i, c) in cases.iter().enumerate() {
         if i % stride == 0 {
             hosts.push((c.id(), c.lx.v.clone()));
@@ -426,8 +429,7 @@ pub fn replay(case: &Value) -> Result<String, String> {
         }
         Some("ids") => {
             let id = case["case"].as_str().ok_or("case")?;
-            let cases = crate::gram::generate(2);
-            let c = cases.iter().find(|c| c.id() == id).ok_or("unknown case")?;
+            let c = &crate::gram::find_case(id).ok_or("unknown case")?;
             match id_problems(c) {
                 Some(p) if !p.is_empty() => Err(format!("{:?}", p)),
                 _ => Ok("identifier spans exact".into()),
